@@ -99,7 +99,13 @@ func drain(it *xpath.NodeIterator, d *xdoc.Doc, res *SelResult) {
 
 // RunSelect drains expr.Select(ctx) under recover and the op budget.
 func (c *Case) RunSelect(e *xpath.Expr, ctx *xdoc.Node) (res SelResult) {
-	rec := &xdoc.Rec{Limit: OpLimit}
+	return c.RunSelectLimit(e, ctx, OpLimit)
+}
+
+// RunSelectLimit is RunSelect with an operation budget of its own (for the few hand-listed evaluations over
+// documents of several hundred thousand nodes, whose legitimate cost is within a small factor of OpLimit).
+func (c *Case) RunSelectLimit(e *xpath.Expr, ctx *xdoc.Node, limit int64) (res SelResult) {
+	rec := &xdoc.Rec{Limit: limit}
 	defer func() {
 		if x := recover(); x != nil {
 			res.Panic, res.Budget = classify(x)
